@@ -45,7 +45,14 @@ def main():
     name = os.path.basename(d)
     wt = f"/tmp/vmut/{name}-{os.getpid()}"
     os.makedirs("/tmp/vmut", exist_ok=True)
-    res = {"name": name, "at": time.strftime("%Y-%m-%d %H:%M:%S")}
+    res = {}
+    old = os.path.join(d, "result.json")
+    if os.path.exists(old):
+        try:
+            res = json.load(open(old))
+        except ValueError:
+            res = {}
+    res.update({"name": name, "at": time.strftime("%Y-%m-%d %H:%M:%S")})
     rc, so, se = sh(["git", "-C", "/repo", "worktree", "add", "--detach",
                      wt, "HEAD"])
     if rc:
@@ -95,8 +102,13 @@ def main():
             if rc not in (0, 1):
                 det[pid]["tail"] = (so + se)[-300:]
             print(pid, rc, det[pid]["kinds"][:3], flush=True)
-        res["checks"] = det
-        res["detected_by"] = [p for p in props if det[p]["rc"] == 1]
+        merged = dict(res.get("checks") or {})
+        merged.update(det)
+        res["checks"] = merged
+        res["detected_by"] = sorted(p for p in merged
+                                    if merged[p]["rc"] == 1)
+        res["harness_errors"] = sorted(p for p in merged
+                                       if merged[p]["rc"] not in (0, 1))
         if tp is not None:
             out = tp.communicate(timeout=3000)[0]
             res["tests_rc"] = tp.returncode
